@@ -162,9 +162,18 @@ fn run_reads(rq: &mut Request, plan: &ReadPlan, d: &mut Delivered) {
                 _ => {
                     let mut a = [0u8; 300];
                     let mut b = [0u8; 700];
+                    // the shape of the buffer list varies with the request: two buffers, an empty one in
+                    // front (the two free regions of a ring buffer), an empty one in the middle
+                    let mut e1: [u8; 0] = [];
+                    let mut e2: [u8; 0] = [];
+                    let shape = d.id.unwrap_or(0) % 3;
                     loop {
                         let r = {
-                            let mut bufs = [std::io::IoSliceMut::new(&mut a), std::io::IoSliceMut::new(&mut b)];
+                            let mut bufs = match shape {
+                                1 => [std::io::IoSliceMut::new(&mut e1), std::io::IoSliceMut::new(&mut a), std::io::IoSliceMut::new(&mut b)],
+                                2 => [std::io::IoSliceMut::new(&mut a), std::io::IoSliceMut::new(&mut e1), std::io::IoSliceMut::new(&mut b)],
+                                _ => [std::io::IoSliceMut::new(&mut a), std::io::IoSliceMut::new(&mut b), std::io::IoSliceMut::new(&mut e2)],
+                            };
                             loop {
                                 match rq.as_reader().read_vectored(&mut bufs) {
                                     Err(e) if e.kind() == std::io::ErrorKind::Interrupted => continue,
